@@ -132,6 +132,46 @@ func registerEnvIntrinsics() {
 		}
 		return r, true
 	}
+	// Strings: a list computed by the engine before the harness runs (a
+	// discovery pass over the current source) and recorded in every model
+	intrinsics["servitor/verifrt.Strings"] = func(in *Interp, fr *frame, fn *ssa.Function, a []Value) (Value, bool) {
+		l := in.ex.cfg.Lists[argStr(a[0])]
+		b := make([]Value, len(l))
+		for i, s := range l {
+			b[i] = Str{S: s}
+		}
+		return Slice{B: b, L: len(b)}, true
+	}
+	// TraceKeys: from now on, lookups by key in this map and the maps nested
+	// in it are recorded (engine only)
+	intrinsics["servitor/verifrt.TraceKeys"] = func(in *Interp, fr *frame, fn *ssa.Function, a []Value) (Value, bool) {
+		var mark func(v Value, depth int)
+		mark = func(v Value, depth int) {
+			if depth > 6 {
+				return
+			}
+			switch v := v.(type) {
+			case *Map:
+				if v == nil || v.traced {
+					return
+				}
+				v.traced = true
+				for _, e := range v.order {
+					if e != nil {
+						mark(e.v, depth+1)
+					}
+				}
+			case Iface:
+				mark(v.V, depth+1)
+			case Slice:
+				for i := 0; i < v.L && i < len(v.B); i++ {
+					mark(v.B[i], depth+1)
+				}
+			}
+		}
+		mark(a[0], 0)
+		return nil, true
+	}
 	intrinsics["servitor/verifrt.Param"] = func(in *Interp, fr *frame, fn *ssa.Function, a []Value) (Value, bool) {
 		name := argStr(a[0])
 		if v, ok := in.ex.cfg.Params[name]; ok {
